@@ -153,6 +153,11 @@ def gen_plan(prop, seed, index, tier="quick"):
             tasks.append({"name": "early", "ops": [
                 {"op": "sleep", "s": r.choice([0.0, 0.0005, 0.002, 0.01, 0.05])},
                 {"op": "seek", "tp": tp, "offset": r.randint(0, max(ends[tp[1]], 1))}]})
+            if r.random() < 0.4:
+                # ... and nobody polls before that seek: whatever the lookup has parked for the
+                # application meanwhile (an error, with policy none) is superseded by the seek
+                for tk in tasks[:-1]:
+                    tk["ops"].insert(0, {"op": "sleep", "s": r.choice([0.06, 0.2])})
     faults = []
     if r.random() < 0.65:
         faults = gen_faults(r, prop, nbrokers, nparts)
@@ -227,6 +232,8 @@ class Ref:
         self.reset_kind = {}  # tp -> "earliest" | "latest" | "none"
         self.reset_since = {}  # tp -> event seq after which replies count
         self.seek_gen = {}  # tp -> number of seek()/seek_to_*() calls so far
+        self.seek_t = {}  # tp -> virtual time of the last seek()
+        self.delivered_since_seek = {}  # tp -> records handed out since then
         self.paused = set()
         self.oor_possible = {}  # tp -> True if the last seek target was out of range when issued
         self.replies = []  # (seq, tp, ts_kind, offset) ListOffsets replies served to us
@@ -284,6 +291,8 @@ class Ref:
     # -- events -------------------------------------------------------------------------
     def on_seek(self, tp, off):
         self.seek_gen[tp] = self.seek_gen.get(tp, 0) + 1
+        self.seek_t[tp] = self.world.now()
+        self.delivered_since_seek[tp] = 0
         self.E[tp] = off
         self.seek_marks[tp] = (off, self.world.log.seq)
         self.oor_possible[tp] = self.out_of_range(tp, off)
@@ -350,6 +359,7 @@ class Ref:
                 "reset_kind": self.reset_kind.get(tp)})
             self.E[tp] = rec.offset + 1
             self.delivered[tp].append(rec.offset)
+            self.delivered_since_seek[tp] = self.delivered_since_seek.get(tp, 0) + 1
             return
         if rec.offset >= self.bound(tp):
             self.v("record_beyond_visible_bound", {"tp": list(tp), "offset": rec.offset,
@@ -368,6 +378,7 @@ class Ref:
         self.E[tp] = rec.offset + 1
         self.oor_possible[tp] = False
         self.delivered[tp].append(rec.offset)
+        self.delivered_since_seek[tp] = self.delivered_since_seek.get(tp, 0) + 1
 
     def on_position(self, tp, pos, just_sought=None):
         if tp not in self.E:
@@ -465,14 +476,36 @@ def execute(plan):
 
     def expected_error(exc, where):
         """Errors the API may legitimately raise in this workload."""
+        def just_sought(tp):
+            # the harness sees an exception a few loop iterations after the library raised it;
+            # a seek by another task may have slipped in between
+            t = ref.seek_t.get(tp)
+            return t is not None and world.now() - t <= 5e-4
+
         if isinstance(exc, Errors.NoOffsetForPartitionError) and policy == "none":
             world.probe("no_offset_for_partition_raised")
+            a = exc.args[0] if exc.args else None
+            tp = (a.topic, a.partition) if hasattr(a, "topic") else None
+            if tp is not None and tp in ref.E and ref.E[tp] is not None and not ref.oor_possible.get(tp) \
+                    and not just_sought(tp):
+                # the application has chosen a valid position since: the error of the lookup
+                # that the seek superseded must not come back
+                world.violation(prop, "stale_error_raised_after_seek",
+                                {"op": where, "error": repr(exc)[:120], "tp": list(tp), "position": ref.E[tp]})
             return True
         if isinstance(exc, Errors.OffsetOutOfRangeError) and policy == "none":
             world.probe("offset_out_of_range_raised")
-            # position was out of range: the application must seek; model follows
-            for tp, off in getattr(exc, "args", [{}])[0].items() if exc.args and isinstance(exc.args[0], dict) else []:
-                pass
+            named = exc.args[0] if exc.args and isinstance(exc.args[0], dict) else {}
+            for a, off in named.items():
+                tp = (a.topic, a.partition)
+                if tp in ref.E and ref.E[tp] is not None and not ref.oor_possible.get(tp) \
+                        and not just_sought(tp) and ref.seek_marks.get(tp) is not None \
+                        and ref.seek_marks[tp][0] != off and not ref.delivered_since_seek.get(tp):
+                    # the error names another offset than the (valid) one the application has
+                    # sought to and nothing was consumed since: a superseded position's error
+                    world.violation(prop, "stale_error_raised_after_seek",
+                                    {"op": where, "error": repr(exc)[:120], "tp": list(tp),
+                                     "sought": ref.seek_marks[tp][0], "named": off})
             return True
         if isinstance(exc, Errors.CorruptRecordException) and world.fault_counts.get("corrupt_once"):
             # a response was corrupted on the way (injected): the error is reported, nothing
